@@ -29,7 +29,7 @@ class Dump:
         self.stream = stream
         self.tmap = tmap
         self.logs = logs
-        tm = [(world.ctid(t), p, n.encode()) for t, p, n in tmap]
+        tm = [(world.ctid(t), p, n.encode(), [b'', b'old\x00junk', b'\xff' * 19][(t + p) % 3]) for t, p, n in tmap]
         recs = records_of(stream)
         if logs is None:
             self.blob, self.layout = encode_v2(tm, 0, recs)
